@@ -17,6 +17,11 @@ class Check:
     def props_file(self):
         return os.path.join(LEAN_DIR, *self.module.split('.')) + '.lean'
 
+    extra_modules = []       # further Props modules of the same property: [(module, namespace)]
+
+    def all_modules(self):
+        return ([(self.module, self.namespace)] if self.module else []) + list(self.extra_modules)
+
     def corr_lines(self, ctx):
         """protocol lines on which generated model and real library are compared"""
         return []
@@ -64,22 +69,26 @@ def _run(check, ctx, rep, replay):
             rep['tie_broken'] += ctx.gen_errors
         t = time.time()
         ok_exe, log_exe = ctx.lake_build(['xrl-model'])
-        ok_props, log_props = ctx.lake_build([check.module]) if check.module else (True, '')
+        ok_props, log_props = ctx.lake_build([m for m, _ in check.all_modules()]) if check.module else (True, '')
     if not ok_exe:
         rep['tie_broken'].append('generated model does not compile: ' + _first_errors(log_exe))
     failing = []
     if not ok_props:
-        failing = core.failing_theorems(log_props, check.props_file())
+        failing = []
+        for m, _ in check.all_modules():
+            failing += core.failing_theorems(log_props, os.path.join(LEAN_DIR, *m.split('.')) + '.lean')
         rep['proof_broken'] = failing or ['(module %s does not build)' % check.module]
         rep['proof_log'] = _first_errors(log_props, 12)
     # ---- 3. audit -----------------------------------------------------------------------------------
     bad = core.audit_sources(core.lean_sources())
     if bad:
         rep['problems'].append('forbidden construct in Lean sources: ' + '; '.join(bad[:5]))
-    theorems = core.theorems_of(check.props_file(), check.namespace) if check.module else []
+    theorems = []
+    for m, ns in check.all_modules():
+        theorems += core.theorems_of(os.path.join(LEAN_DIR, *m.split('.')) + '.lean', ns)
     axioms = {}
     if ok_props and theorems:
-        axioms, txt = core.print_axioms(ctx, check.module, theorems)
+        axioms, txt = core.print_axioms(ctx, [m for m, _ in check.all_modules()], theorems)
         for th in theorems:
             if th not in axioms:
                 rep['problems'].append('axiom audit: no report for %s' % th)
